@@ -5,6 +5,8 @@ engine still takes its symbolic code paths: the variables are solver terms) and 
 A model of a primitive that disagrees with CPython makes the claim refutable or undecided.  Run: `./check SELFTEST --no-evidence`
 (also part of ./setup.sh).  Seeds: VERIF_SEED.
 """
+import functools  # noqa: F401
+import operator  # noqa: F401
 import os
 import random
 import struct  # noqa: F401
@@ -71,7 +73,7 @@ CASES = [
     ("(f & (a > 3)) | g", {"f": "bool", "g": "bool", "a": "small"}),
     ("1 if a & 0x01 else 0", {"a": "u8"}), ("[True, False][f]", {"f": "bool"}),
     # bytes methods / conversions
-    ("a.to_bytes(4, 'big')", {"a": "u32"}),
+    ("a.to_bytes(4, 'big')", {"a": "u32"}), ("a.to_bytes(3, 'big')", {"a": "u32"}), ("(a * 65536 + b).to_bytes(11, 'big')", {"a": "u64", "b": "u16"}),
     ("x.startswith(y[:1])", {"x": "b8", "y": "b8"}), ("x.startswith(x[:3])", {"x": "b8"}), ("x.endswith(x[5:])", {"x": "b8"}),
     ("x == y", {"x": "bytes", "y": "bytes"}), ("x[:1] in (b'\\x00', b'\\x01')", {"x": "b8"}), ("bytes([a, b])", {"a": "u8", "b": "u8"}),
     ("len(x) * 2 + 1", {"x": "bytes"}),
@@ -88,6 +90,13 @@ CASES = [
     ("h_classes(a)", {"a": "small"}), ("h_kwargs(a, b)", {"a": "small", "b": "small"}),
     ("h_exceptions(a)", {"a": "small"}), ("h_containers(a, b)", {"a": "pos", "b": "pos"}), ("h_strings(a)", {"a": "pos"}),
     ("h_scoping(a)", {"a": "small"}), ("h_loops(a)", {"a": "pos"}),
+    ("int.from_bytes(x[i:i + 2], 'big')", {"x": "b8", "i": "small"}), ("int.from_bytes(x, 'little')", {"x": "b8"}),
+    ("int.from_bytes(x[5:], 'big')", {"x": "b8"}),
+    # operator module
+    ("operator.or_(a, 0x40)", {"a": "u8"}), ("functools.reduce(operator.or_, [a & 1, a & 2, a & 4], 0)", {"a": "u8"}),
+    ("operator.add(a, b)", {"a": "small", "b": "small"}), ("operator.eq(a, b)", {"a": "small", "b": "small"}),
+    ("operator.lt(a, b)", {"a": "small", "b": "small"}), ("operator.contains([a, 3], b)", {"a": "small", "b": "small"}),
+    ("operator.not_(a)", {"a": "small"}), ("isinstance(x, (bytes, bytearray, memoryview))", {"x": "bytes"}),
     # array (host byte order)
     ("array('q', [a]).tobytes()", {"a": "i64"}), ("array('B', [f, a]).tobytes()", {"f": "bool", "a": "u8"}),
 ]
@@ -344,14 +353,14 @@ for _expr, _kinds in CASES:
     for _s in range(N_SAMPLES):
         _vals = {v: GEN[k]() for v, k in _kinds.items()}
         try:
-            _expected = eval(_expr, {"struct": struct, "array": array, "hexlify": hexlify, "unhexlify": unhexlify, **HELPERS}, dict(_vals))  # noqa: S307
+            _expected = eval(_expr, {"struct": struct, "array": array, "operator": operator, "functools": functools, "hexlify": hexlify, "unhexlify": unhexlify, **HELPERS}, dict(_vals))  # noqa: S307
             _exc = None
         except Exception as _e:  # noqa: BLE001
             _expected, _exc = None, type(_e).__name__
         _k += 1
         if _exc is not None:
             contract("contracts/SELFTEST.py::ev", f"#{_k} {_expr} @ {_vals!r} raises {_exc}", vars={v: DECL[k] for v, k in _kinds.items()},
-                     requires=[f"{v} == {_vals[v]!r}" for v in _kinds], call=f"ev(lambda: {_expr})", raises=[_exc, "struct.error"], ensures=["False"],
+                     requires=[f"{v} == {_vals[v]!r}" for v in _kinds], call=f"ev(lambda: {_expr})", raises=[_exc, "struct.error"], ensures=["False"], ensures_raise=["raised is not None"],
                      note="CPython raises here; the engine must raise as well")
         else:
             contract("contracts/SELFTEST.py::ev", f"#{_k} {_expr} @ {_vals!r}", vars={v: DECL[k] for v, k in _kinds.items()},
